@@ -15,7 +15,7 @@ EXTRA = ['{c}. {b}. a :- c. not a :- b. #show b/0. #show c/0.', '{c(X)} :- d(X).
 
 
 def corr(rng, quick):
-    return corr_unused.run(rng, 60 if quick else 2500, n_targeted=60 if quick else 2000, corpus_limit=60 if quick else None)
+    return corr_unused.run(rng, 30 if quick else 2500, n_targeted=40 if quick else 2000, corpus_limit=40 if quick else None)
 
 
 def semcond(rng, quick):
